@@ -162,7 +162,8 @@ theorem whitelistFilter_ok {g : Graph} {wl : Whitelist} {r : Filtered} (h : whit
       canonicalRoutes g wl.routes = .ok canon ∧ routeWhitelistSeeds g canon = .ok (rts, wlRoutes) ∧
       datatypeWhitelistSeeds g wl.datatypes = .ok dts ∧
       dfs g (g.dfsFuel (rts ++ dts).length) ((rts ++ dts).map .node) {} = .ok st ∧
-      r.types = st.types ∧ r.routes = addAll [] (wlRoutes ++ st.routes) ∧ r.aliases = g.allAliases ∧
+      r.types = st.types ∧ r.routes = addAll [] (wlRoutes ++ st.routes) ∧
+      filterAliases g st.types (g.dfsFuel 0) g.allAliases = .ok r.aliases ∧
       r.seen = st.seen ∧ r.start = rts ++ dts := by
   simp only [whitelistFilter] at h
   split at h
@@ -177,8 +178,11 @@ theorem whitelistFilter_ok {g : Graph} {wl : Whitelist} {r : Filtered} (h : whit
         split at h
         · simp at h
         · rename_i st hst
-          cases h
-          exact ⟨canon, rts, wlRoutes, dts, st, hc, hr, hd, hst, rfl, rfl, rfl, rfl, rfl⟩
+          split at h
+          · simp at h
+          · rename_i als hals
+            cases h
+            exact ⟨canon, rts, wlRoutes, dts, st, hc, hr, hd, hst, rfl, rfl, hals, rfl, rfl⟩
 
 /-- the doc targets of a namespace doc / a node doc that are not routes, and the io types of those
 that are, lie in every closed set containing the holder -/
